@@ -200,6 +200,94 @@ theorem firstCall_good (g : Grammar T N) (fi : N → TE T) (memo : FirstMemo T N
       obtain ⟨rfl, rfl⟩ := h
       rfl
 
+/-! ## any history of calls of one closure
+
+`MemoGood` asks every stored value to be right; a call that panics on an undeclared symbol stores a partial value, so
+after such a call only the weaker `MemoGoodD` holds: the values stored for strings of DECLARED symbols are right.  That
+is an invariant of every call, and it is all a call with a string of declared symbols needs. -/
+
+/-- every value stored for a string of declared symbols is the value of that string -/
+def MemoGoodD (g : Grammar T N) (fi : N → TE T) (memo : FirstMemo T N) : Prop :=
+  ∀ s r, (s, r) ∈ memo → (∀ X, X ∈ s → symDeclared g X = true) → r = firstStr fi s
+
+theorem MemoGood.toD {g : Grammar T N} {fi : N → TE T} {memo : FirstMemo T N} (h : MemoGood fi memo) :
+    MemoGoodD g fi memo := fun s r hm _ => h s r hm
+
+/-- ANY call keeps `MemoGoodD`; a call with declared symbols returns FIRST of the string -/
+theorem firstCall_goodD (g : Grammar T N) (fi : N → TE T) (memo : FirstMemo T N) (s : List (Sym T N))
+    (hm : MemoGoodD g fi memo) :
+    MemoGoodD g fi (firstCall g fi memo s).2 ∧
+    ((∀ X, X ∈ s → symDeclared g X = true) → (firstCall g fi memo s).1 = .ok (firstStr fi s)) := by
+  unfold firstCall
+  cases hl : memo.lookup s with
+  | some r =>
+    refine ⟨hm, fun hs => ?_⟩
+    have := hm s r (lookup_mem s r memo hl) hs
+    subst this
+    rfl
+  | none =>
+    refine ⟨?_, fun hs => ?_⟩
+    · intro s' r' hmem hs'
+      rcases List.mem_append.1 hmem with h | h
+      · exact hm s' r' h hs'
+      · simp only [List.mem_singleton, Prod.mk.injEq] at h
+        obtain ⟨rfl, rfl⟩ := h
+        simp only [firstWalk_declared g fi s' [] hs']
+        rfl
+    · simp only [firstWalk_declared g fi s [] hs, Bool.false_eq_true, if_false]
+      rfl
+
+theorem firstCalls_length (g : Grammar T N) (fi : N → TE T) :
+    ∀ (qs : List (List (Sym T N))) (memo : FirstMemo T N), (firstCalls g fi memo qs).1.length = qs.length := by
+  intro qs
+  induction qs with
+  | nil => intro memo; rfl
+  | cons s rest ih => intro memo; simp only [firstCalls, List.length_cons, ih]
+
+/-- in any history every call with a string of declared symbols is answered with FIRST of that string, whatever
+was asked before it (strings that are declared or not, calls that panicked and left partial values) -/
+theorem firstCalls_good (g : Grammar T N) (fi : N → TE T) :
+    ∀ (qs : List (List (Sym T N))) (memo : FirstMemo T N), MemoGoodD g fi memo →
+      MemoGoodD g fi (firstCalls g fi memo qs).2 ∧
+      ∀ p, p ∈ qs.zip (firstCalls g fi memo qs).1 → (∀ X, X ∈ p.1 → symDeclared g X = true) →
+        p.2 = .ok (firstStr fi p.1) := by
+  intro qs
+  induction qs with
+  | nil => intro memo hm; exact ⟨hm, fun p hp => by simp [firstCalls] at hp⟩
+  | cons s rest ih =>
+    intro memo hm
+    have h1 := firstCall_goodD g fi memo s hm
+    have h2 := ih (firstCall g fi memo s).2 h1.1
+    refine ⟨h2.1, ?_⟩
+    intro p hp hd
+    simp only [firstCalls, List.zip_cons_cons, List.mem_cons] at hp
+    rcases hp with rfl | hp
+    · exact h1.2 hd
+    · exact h2.2 p hp hd
+
+/-- a history of strings of declared symbols only: the answers are FIRST of the strings, one by one -/
+theorem firstCalls_declared (g : Grammar T N) (fi : N → TE T) :
+    ∀ (qs : List (List (Sym T N))) (memo : FirstMemo T N), MemoGoodD g fi memo →
+      (∀ s, s ∈ qs → ∀ X, X ∈ s → symDeclared g X = true) →
+      (firstCalls g fi memo qs).1 = qs.map (fun s => .ok (firstStr fi s)) := by
+  intro qs
+  induction qs with
+  | nil => intro memo _ _; rfl
+  | cons s rest ih =>
+    intro memo hm hd
+    have h1 := firstCall_goodD g fi memo s hm
+    simp only [firstCalls, List.map_cons]
+    rw [h1.2 (hd s (List.mem_cons_self ..)), ih _ h1.1 (fun s' hs' => hd s' (List.mem_cons_of_mem _ hs'))]
+
+/-- the strings `ComputeFOLLOW` (`β` of `A → α B β`), `IsLL1` and `BuildParsingTable` (whole bodies) hand to the
+closure are pieces of production bodies; in a grammar that passes `Verify()` their symbols are declared -/
+theorem infix_declared {g : Grammar T N} (hv : validB g = true) {p : GProd T N} (hp : p ∈ g.prods)
+    {pre s suf : List (Sym T N)} (hb : p.body = pre ++ s ++ suf) : ∀ X, X ∈ s → symDeclared g X = true := by
+  intro X hX
+  apply (valid_prod hv hp).2 X
+  rw [hb]
+  exact List.mem_append_left _ (List.mem_append_right _ hX)
+
 /-! ## the accessors of the parsing table read the cells -/
 
 theorem cellInfo_isEmpty (t : PTable T N) (A : N) (a : Option T) :
